@@ -143,7 +143,111 @@ def check_C04(chk):
                         "memory safety of the unsafe buffer fill in Framed is not addressed by this technique"]
 
 
+def values_trace_validate(chk, name, trace_path, what):
+    r = tlc("Trace_Values", os.path.join(SPEC, "Trace_Values.cfg"), name, workers=1, env={"TRACE": trace_path}, timeout=3000, trace_mode=True)
+    chk.add_tlc(name, r)
+    nev = sum(1 for _ in open(trace_path))
+    chk.evaluations += nev
+    chk.traces += nev if r.ok else 0
+    if r.violated:
+        idx, ev = r.rejected if r.rejected else (0, {})
+        sig = {k: v for k, v in ev.items() if k in ("ev", "res", "k", "kind", "field", "cls")}
+        if ev.get("ev") in ("LapsEnc", "LapsDec"):
+            sig["v"] = "in-range" if (ev.get("k") == "Laps" and 1 <= ev.get("v", 0) <= 1000) or (ev.get("k") == "Hours" and 1 <= ev.get("v", 0) <= 48) else "out-of-range"
+        key = "trace:" + json.dumps(sig, sort_keys=True)
+        chk.violation(key, f"{what}: event {idx} is not explained by the specification: {json.dumps(ev)[:500]}", {"kind": "values-trace", "events": [ev]})
+    log(f"[trace] {name}: {nev} events, {'accepted' if r.ok else 'REJECTED'} in {r.wall:.0f}s")
+    return r
+
+
+def values_vectors(chk, name, maxlen):
+    cfg = write_cfg(name, "Spec", {"MaxLen": f"= {maxlen}"})
+    r = tlc("MC_Values", cfg, name, workers=1, timeout=1500, coverage=False, env={"JAVA_TOOL_OPTIONS": "-Xss1g"})
+    if r.violated:
+        raise ToolError(f"MC_Values: {r.violated}")
+    nd = os.path.join(WORK, name + ".ndjson")
+    n = extract_emitted(r.out_path, nd, tag="VAL")
+    chk.add_tlc(name, r)
+    chk.states += n
+    chk.transitions += n
+    log(f"[tlc] {name}: {n} enumerated inputs ({r.wall:.0f}s)")
+    return nd, n
+
+
+def _sample_events(chk, path, picks=(0, 1000, 30000)):
+    with open(path) as f:
+        for i, line in enumerate(f):
+            e = json.loads(line)
+            chk.case(e)
+            if i in picks:
+                chk.sample(e)
+
+
+def _values_check(chk, what, rule, replay_filter=None, maxlen=None):
+    chk.rule = rule
+    thorough = chk.tier == "thorough"
+    if replay_filter:
+        nd, n = values_vectors(chk, f"{chk.pid.lower()}_gen", maxlen or 5)
+        tp = os.path.join(WORK, f"{chk.pid.lower()}_replay.ndjson")
+        out = harness(["values-replay", "--in", nd, "--out", tp])
+        # keep only the events of this property
+        tp2 = tp + ".filtered"
+        with open(tp) as f, open(tp2, "w") as o:
+            for line in f:
+                if json.loads(line)["ev"] in replay_filter:
+                    o.write(line)
+        _sample_events(chk, tp2)
+        values_trace_validate(chk, f"{chk.pid.lower()}_replay", tp2, "input enumerated by TLC")
+    tp = os.path.join(WORK, f"{chk.pid.lower()}_trace.ndjson")
+    out = harness(["values-trace", "--what", what, "--out", tp, "--seed", str(chk.seed), "--tier", chk.tier], timeout=3000)
+    chk.extra["driver"] = json.loads(out.strip().splitlines()[-1])
+    _sample_events(chk, tp)
+    values_trace_validate(chk, f"{chk.pid.lower()}_trace", tp, "recorded conversion")
+
+
+def check_C13(chk):
+    _values_check(chk, "veh", "LfsValues.VehClass (InSim v9 rule) in two forms that TLC proves equal on the boundary set. TLC enumerates boundary "
+                  "identifiers (every alphanumeric edge in each position x last byte 0/1/255, the 20 names, lower-cased names); the real BinRead / "
+                  "BinWrite / Display run on them and on 40k random alphanumeric names + 20k random values (quick) or on all 2^32 values compressed "
+                  "into boxes of uniform class (thorough); TLC validates class, mod id, identical write-back and printed name of every event.",
+                  replay_filter={"VehRead"})
+    chk.exhaustive = chk.tier == "thorough"
+
+
+def check_C14(chk):
+    _values_check(chk, "track", "The harness decodes the whole shaped space [A-Z][A-Z][0-9][0-9]?[A-Z]? (about 2.0M values), other paddings / cases of "
+                  "every accepted code and random 6-byte values; for each accepted value TLC checks the generic rules of LfsValues (wire = code "
+                  "NUL-padded, re-encode identical, reversed iff R/Y, open iff X/Y, open => no distance, one licence per area, no second wire form) "
+                  "and that exactly 154 configurations exist.")
+    chk.exhaustive = True
+
+
+def check_C15(chk):
+    _values_check(chk, "time", "Decode side exhaustive: all 256 race-length bytes and all 65536 values of every 16-bit time field; 32-bit time fields at "
+                  "boundaries and seeded random values. Encode side: units x scale + every sub-resolution remainder around 0, the field maximum and "
+                  "beyond; Laps 0..1100, Hours 0..300 and huge values. TLC validates each event against Units/DurOf/RaceLapsByte/RaceLapsOf: exact "
+                  "(rounded down) or refused / practice, never another value.")
+    chk.assumptions += ["the scale (1 ms or 10 ms) the Rust field declares is taken as the field's definition"]
+
+
+def check_C16(chk):
+    _values_check(chk, "gv", "TLC enumerates every string up to length 5 (quick) / 6 (thorough) over {two digits, '.', upper, lower, other ASCII, non-ASCII "
+                  "numeric} with the result of the three-phase parser GvParse, and a 64-element version set with abstract order keys (the order "
+                  "axioms are checked on the model for all triples). The real FromStr / Display / Ord / Eq run on them (with a watchdog against "
+                  "non-termination) plus 20k-200k random longer Unicode strings; TLC validates every event.",
+                  replay_filter={"GvParse", "GvCmp"}, maxlen=6 if chk.tier == "thorough" else 5)
+
+
 def replay_case(case):
+    if case["kind"] == "values-trace":
+        os.makedirs(WORK, exist_ok=True)
+        ip = os.path.join(WORK, "replay_case_values_in.ndjson")
+        tp = os.path.join(WORK, "replay_case_values.ndjson")
+        open(ip, "w").write("".join(json.dumps(e) + "\n" for e in case["events"]))
+        harness(["values-rerun", "--in", ip, "--out", tp])
+        r = tlc("Trace_Values", os.path.join(SPEC, "Trace_Values.cfg"), "replay_case", workers=1, env={"TRACE": tp}, trace_mode=True)
+        print("accepted" if r.ok else f"rejected: {r.rejected}")
+        return 0 if r.ok else 1
     if case["kind"] == "wire-trace":
         os.makedirs(WORK, exist_ok=True)
         tp = os.path.join(WORK, "replay_case_wire.ndjson")
